@@ -715,6 +715,7 @@ def check_stitch(ctx, case):
     else:
         streams = [wire_samples(sub['0']) for sub in subs]
         mo = streams[0] if len(streams) == 1 else ctx.model([[14, [7, streams]]])[0]
+    crashed = None
     try:
         getter = sc.get('Calibration/Products/cal/' + case['ptype'], extract=False)
         sd = getter.get()
@@ -722,8 +723,13 @@ def check_stitch(ctx, case):
                for t, v in zip(sd.timestamp, sd.value)]
     except KeyError:
         got = None
+    except Exception as e:       # noqa: BLE001 - a crash on an in-domain input is reported with the input
+        got = None
+        crashed = 'raises:' + type(e).__name__
     bad = None
-    if (got is None) != (mo is None):
+    if crashed:
+        bad = crashed
+    elif (got is None) != (mo is None):
         bad = 'keyerror'
     elif got is not None:
         if [t for t, _ in got] != [fq(s[0]) for s in mo]:
@@ -821,7 +827,9 @@ def check_end_to_end(ctx, case):
         out = sc.get('Calibration/Corrections/cal/%s/%s' % (ptype, inp))
     cf = [Fr(float(f)) for f in cal_freqs]
     bad = None
-    if ptype == 'K':
+    # which calculator: the model's dispatch table (regenerated from calc_correction_per_input), not the harness
+    kind = ctx.model([[142, [0, codes(ptype)]]])[0]
+    if kind == [0]:
         mo = ctx.model([[14, [2, [[] if s[0] is None else [q(Fr(s[0]))] for s in sols], [q(f) for f in data_freqs]]]])[0]
         got = cat_segments(out)
         for (st, v), m in zip(got, mo):
@@ -829,7 +837,7 @@ def check_end_to_end(ctx, case):
                 bad = 'value'
         if [e for e, _ in got] != events:
             bad = 'events'
-    elif ptype == 'B':
+    elif kind == [1]:
         mo = ctx.model([[14, [3, [[wire_opv(None if v is None else (Fr(v[0]), Fr(v[1]))) for v in s] for s in sols],
                               [q(f) for f in cf], [q(f) for f in data_freqs]]]])[0]
         got = cat_segments(out)
@@ -838,20 +846,18 @@ def check_end_to_end(ctx, case):
                 bad = 'value'
         if [e for e, _ in got] != events:
             bad = 'events'
-    else:
-        wsols = sols
-        if ptype == 'G':
-            fcase = dict(case, measured=case['measured'] or [])
-            mo = ctx.model([wire_flux(fcase, sols, events)])[0]
-            wsols = [None if not m[1] else [None if not e else [str(fq(e[0][0])), str(fq(e[0][1]))] for e in m[1][0]]
-                     for m in mo]
-        tg = None if ptype == 'G' else per_dump
-        mo = ctx.model([[14, [4, N, wire_sols(wsols, events), [] if tg is None else [tg]]]])[0]
-        mo = [[parse_opv(e) for e in row] for row in mo]
-        g = dict(N=N, events=events, sols=wsols, targets=tg)
+    elif kind and kind[0] == 2:
+        # flux calibration (or not) and per-target interpolation (or not) are decided by the model from the type
+        fcase = dict(case, measured=case['measured'] or [])
+        w = wire_flux(fcase, sols, events)
+        mo = ctx.model([[142, [1, codes(ptype), N] + w[1][1:] + [per_dump]]])[0]
+        mo = [[parse_opv(e) for e in row] for row in mo[0]]
+        g = dict(N=N, events=events, sols=sols, targets=per_dump if kind[2] else None)
         pos, sym = gain_symptom(g, out, mo)
         if sym:
             bad = '%s@%s' % (sym, pos)
+    else:
+        bad = 'no_calculator_in_model'
     if bad:
         ctx.disagree('kind=e2e;type=%s;symptom=%s' % (ptype, bad), case, show(np.asarray(out[:]) if ptype not in 'KB'
                      else [v for _, v in cat_segments(out)][0]), None,
@@ -913,8 +919,9 @@ def wire_req(r):
     return [0, codes(r)] if isinstance(r, str) else [1, [codes(x) for x in r]]
 
 
-def check_normalise(ctx, req, streams):
-    mo = ctx.model([[14, [8, wire_req(req), [codes(s) for s in streams]]]])[0]
+def check_normalise(ctx, req, streams, mo=None):
+    if mo is None:
+        mo = ctx.model([[14, [8, wire_req(req), [codes(s) for s in streams]]]])[0]
     mo = None if not mo else ([''.join(chr(c) for c in s) for s in mo[0]], bool(mo[1]))
     # the real caller passes dict keys
     keys = dict.fromkeys(streams).keys()
@@ -1564,37 +1571,42 @@ def run_case(ctx, case):
 
 
 def run(ctx):
+    import time
     rng = ctx.rng
     if not ctx.model_ok:
         return
-    for f in ctx.findings:
-        run_case(ctx, f['witness'])
-    for _ in range(ctx.scale(150, 2000)):
-        check_unwrap(ctx, gen_unwrap(rng))
-    for _ in range(ctx.scale(300, 5000)):
-        check_cinterp(ctx, gen_cinterp(rng))
-    for _ in range(ctx.scale(100, 1500)):
-        check_delay(ctx, gen_delay(rng))
-    for _ in range(ctx.scale(250, 4000)):
-        check_bandpass(ctx, gen_bandpass(rng))
-    for _ in range(ctx.scale(400, 7000)):
-        check_gain(ctx, gen_gain(rng))
-    for _ in range(ctx.scale(150, 2500)):
-        check_flux(ctx, gen_flux(rng))
-    for _ in range(ctx.scale(150, 2500)):
-        check_stitch(ctx, gen_stitch(rng))
-    for _ in range(ctx.scale(100, 1500)):
-        check_end_to_end(ctx, gen_end_to_end(rng))
-    for _ in range(ctx.scale(400, 6000)):
-        check_select(ctx, gen_select(rng))
-    for _ in range(ctx.scale(400, 6000)):
-        check_products(ctx, gen_products(rng))
-    run_opened(ctx, rng, ctx.scale(25, 300), 6)
-    for _ in range(ctx.scale(12, 150)):
-        check_two_sets(ctx, gen_two_sets(rng))
-    for streams in STREAM_SETS:
-        for req in normalise_cases(ctx):
-            check_normalise(ctx, req, streams)
+    stage = {}
+
+    def timed(name, fn):
+        t = time.time()
+        fn()
+        stage[name] = round(time.time() - t, 1)
+
+    def many(n, check, gen):
+        for _ in range(n):
+            check(ctx, gen(rng))
+    timed('findings', lambda: [run_case(ctx, f['witness']) for f in ctx.findings])
+    timed('unwrap', lambda: many(ctx.scale(150, 2000), check_unwrap, gen_unwrap))
+    timed('cinterp', lambda: many(ctx.scale(300, 5000), check_cinterp, gen_cinterp))
+    timed('delay', lambda: many(ctx.scale(100, 1500), check_delay, gen_delay))
+    timed('bandpass', lambda: many(ctx.scale(250, 4000), check_bandpass, gen_bandpass))
+    timed('gain', lambda: many(ctx.scale(400, 7000), check_gain, gen_gain))
+    timed('flux', lambda: many(ctx.scale(150, 2500), check_flux, gen_flux))
+    timed('stitch', lambda: many(ctx.scale(150, 2500), check_stitch, gen_stitch))
+    timed('e2e', lambda: many(ctx.scale(100, 1500), check_end_to_end, gen_end_to_end))
+    timed('select', lambda: many(ctx.scale(400, 6000), check_select, gen_select))
+    timed('products', lambda: many(ctx.scale(400, 6000), check_products, gen_products))
+    timed('opened', lambda: run_opened(ctx, rng, ctx.scale(25, 300), 6))
+    timed('two_sets', lambda: many(ctx.scale(12, 150), check_two_sets, gen_two_sets))
+
+    def normalise_all():
+        todo = [(req, streams) for streams in STREAM_SETS for req in normalise_cases(ctx)]
+        # one batched model call (a call per case costs a process start each)
+        outs = ctx.model([[14, [8, wire_req(req), [codes(x) for x in streams]]] for req, streams in todo])
+        for (req, streams), mo in zip(todo, outs):
+            check_normalise(ctx, req, streams, mo if mo else [])
+    timed('normalise', normalise_all)
+    ctx.extra['stage_seconds'] = stage
     ctx.extra['normalise_exhaustive_over'] = 'streams in {[], [l1], [l2], [l1,l2]} x %d request forms' % len(
         normalise_cases(ctx))
 
